@@ -197,6 +197,8 @@ def _next_op(rng, mode: str, ncells: int, mods: list[str], flavour: str):
             return ["M", t]
         if r < 0.62:
             lv = rng.choice([1, 1, 1, 2, 3]) if ncells < 10 else rng.choice([1, 1, 2]) if ncells < 24 else 1
+            if rng.random() < 0.02:
+                lv = 0
             return ["R", t, lv]
         if r < 0.76:
             return ["U"]
